@@ -11,7 +11,9 @@ impl File {
     /// TRUSTED (SQL `update Files set ... where rowid=?`): overwrites the row of this id with this record.
     #[verifier::external_body]
     pub fn save(&mut self, ptx: &mut ProcessTransaction) -> (ret: Result<(), RedoError>)
+        requires old(ptx).can_write(),
         ensures
+            final(ptx).after_write(old(ptx)),
             *final(self) == *old(self),
             final(ptx).spec_env() == old(ptx).spec_env(),
             final(ptx)@.deps == old(ptx)@.deps,
@@ -23,6 +25,7 @@ impl File {
     #[verifier::external_body]
     pub fn from_id(ptx: &mut ProcessTransaction, id: i64) -> (ret: Result<File, RedoError>)
         ensures
+            final(ptx).after_read(old(ptx)),
             final(ptx)@ == old(ptx)@, final(ptx).spec_env() == old(ptx).spec_env(),
             ret matches Ok(f) ==> f.id == id && old(ptx)@.files.contains_key(id)
                 && f.rec() == always_rule(old(ptx)@.files[id], old(ptx).spec_env().runid),
@@ -33,7 +36,9 @@ impl File {
     /// returns the row named norm_name(name); adds a fresh row when absent and allow_add.
     #[verifier::external_body]
     pub fn from_name(ptx: &mut ProcessTransaction, name: &RedoPath, allow_add: bool) -> (ret: Result<File, RedoError>)
+        requires allow_add ==> old(ptx).tx_mode() != TxMode::Deferred || old(ptx).has_written(),
         ensures
+            final(ptx).tx_mode() == old(ptx).tx_mode() && final(ptx).has_read() && (old(ptx).has_written() ==> final(ptx).has_written()),
             final(ptx).spec_env() == old(ptx).spec_env(), final(ptx)@.deps == old(ptx)@.deps,
             ret matches Ok(f) ==> {
                 &&& final(ptx)@.files.contains_key(f.id) && f.rec() == always_rule(final(ptx)@.files[f.id], old(ptx).spec_env().runid)
@@ -71,7 +76,9 @@ impl File {
     /// TRUSTED (SQL `update Deps set delete_me=1 where target=?`)
     #[verifier::external_body]
     pub fn zap_deps1(&mut self, ptx: &mut ProcessTransaction) -> (ret: Result<(), RedoError>)
+        requires old(ptx).can_write(),
         ensures
+            final(ptx).after_write(old(ptx)),
             *final(self) == *old(self), final(ptx).spec_env() == old(ptx).spec_env(), final(ptx)@.files == old(ptx)@.files,
             ret is Ok ==> final(ptx)@.deps.dom() == old(ptx)@.deps.dom()
                 && forall|k: (i64, i64)| #[trigger] old(ptx)@.deps.contains_key(k) ==>
@@ -81,7 +88,9 @@ impl File {
     /// TRUSTED (SQL `delete from Deps where target=? and delete_me=1`)
     #[verifier::external_body]
     pub fn zap_deps2(&mut self, ptx: &mut ProcessTransaction) -> (ret: Result<(), RedoError>)
+        requires old(ptx).can_write(),
         ensures
+            final(ptx).after_write(old(ptx)),
             *final(self) == *old(self), final(ptx).spec_env() == old(ptx).spec_env(), final(ptx)@.files == old(ptx)@.files,
             ret is Ok ==> forall|k: (i64, i64)| (#[trigger] final(ptx)@.deps.contains_key(k) <==>
                      old(ptx)@.deps.contains_key(k) && !(k.0 == old(self).id && old(ptx)@.deps[k].delete_me)),
